@@ -435,6 +435,12 @@ def list_repeat(I, st, a, n):
 
 def list_concat(I, st, a, b):
     A, B = I.arr_of(a, st), I.arr_of(b, st)
+    if isinstance(A.etype, str) and A.etype.startswith("opaque") and I.concrete_int(B.shape[0]) is not None:
+        # appending freshly built objects to a sequence of foreign ones: seen through the same (opaque) interface
+        items = [B.elem(i) for i in range(I.concrete_int(B.shape[0]))]
+        if any(isinstance(x, Obj) for x in items):
+            items = [as_opaque(I, st, x) if isinstance(x, Obj) else x for x in items]
+            B = Arr(B.shape, lambda i, items=items: I._pick(items, i), kind=B.kind, etype=A.etype)
     la, lb = A.shape[0], B.shape[0]
     ca, cb = I.concrete_int(la), I.concrete_int(lb)
     if ca is not None and cb is not None:
@@ -525,6 +531,64 @@ def comprehension(I, st, node):
             I.in_contract -= 1
             st.env = saved
     return st.alloc(Arr((it.length,), elem, kind="list", etype="any"), "arr")
+
+
+def dict_comprehension(I, st, node):
+    """{key(x): val(x) for x in seq}: a dictionary with symbolic key set; for a key that occurs several times the LAST
+    item wins (Python semantics): last(k) is the greatest position whose key is k."""
+    if len(node.generators) != 1 or node.generators[0].ifs:
+        raise Unsupported("dict comprehension with filters / several generators")
+    used("dict comprehension over a sequence of unknown length: has(k) iff some item has key k; d[k] is the value of the "
+         "LAST item with key k")
+    g = node.generators[0]
+    it = I.make_iter(I.eval(g.iter, st), st)
+    n = to_z3(it.length)
+    env0 = dict(st.env)
+    from .engine import _sid
+
+    def at(j, what):
+        saved = st.env
+        st.env = dict(env0)
+        I.in_contract += 1
+        try:
+            I.assign(g.target, it.item(j), st)
+            return I.eval(what, st)
+        finally:
+            I.in_contract -= 1
+            st.env = saved
+    last = z3.Function(fresh_name("dc_last"), z3.IntSort(), z3.IntSort())
+    j, k = z3.Int(fresh_name("j")), z3.Int(fresh_name("k"))
+    keyj = _sid(at(j, node.key))
+
+    def has(key):
+        kz = _sid(key)
+        jj = z3.Int(fresh_name("j"))
+        return z3.Exists([jj], z3.And(jj >= 0, jj < n, _sid(at(jj, node.key)) == kz))
+    st.fact(z3.ForAll([j], z3.Implies(z3.And(j >= 0, j < n), z3.And(last(keyj) >= j, last(keyj) < n)), patterns=[last(keyj)]))
+    jl = last(k)
+    st.fact(z3.ForAll([k], z3.Implies(z3.And(jl >= 0, jl < n), _sid(at(jl, node.key)) == k), patterns=[last(k)]))
+    sample = at(z3.Int(fresh_name("probe")), node.value)
+    vt = "int" if (isinstance(sample, int) or (is_z3(sample) and z3.is_int(sample))) else \
+        ("real" if is_num(sample) else "any")
+
+    def get(key):
+        return at(last(_sid(key)), node.value)
+    return st.alloc(DictV(has, get, vt, None), "dict")
+
+
+def as_opaque(I, st, o):
+    """An object built in the function under verification, seen as an element of a sequence of foreign objects."""
+    from .values import intern_str
+    term = _obj_term(st, o)
+    st.fact(_TYPE_NAME(term) == intern_str(o.cls))
+    for c in (I.repo.mro(o.cls) or [o.cls]):
+        st.fact(_ISINST(term, z3.IntVal(intern_str(c))))
+        spec = I.reg["classes"].get(c)
+        for f, t in (spec.fields.items() if spec else ()):
+            if t in ("int", "nat", "pos", "real", "bool") and f in st.heap[o.oid]:
+                fn = z3.Function(f"fld_{f}", ObjS, z3.RealSort() if t == "real" else (z3.BoolSort() if t == "bool" else z3.IntSort()))
+                st.fact(fn(term) == to_z3(st.heap[o.oid][f]))
+    return Opaque(term, o.cls)
 
 
 def isinstance_(I, st, v, tnode):
